@@ -26,8 +26,11 @@ func ZZRandomLevelSym(h *Index) int {
 	return lv
 }
 
+// ZZVerifC07ExactFull: exactly 2*M vectors (the upper end of the exact regime), arbitrary levels, no deletes.
+func ZZVerifC07ExactFull() { zzC07Exact() }
+
 func zzC07Exact() {
-	n := rt.IntRange("n", 1, rt.Param("N", 3))
+	n := rt.IntRange("n", rt.Param("NMIN", 1), rt.Param("N", 3))
 	h, err := New(2, 4, distance.Euclidean, distance.Float32, "", "")
 	rt.Assert(err == nil, "index construction")
 	h.visitedPool.New = func() any { return NewBitSet(8) }
